@@ -121,6 +121,8 @@ type Exec struct {
 	pcParts   map[string]pcPart
 	heapForms map[string]heapForm
 	specEq    bool
+	sconcatAx bool
+	lemmasUsed map[string]bool
 }
 
 type boxed struct {
@@ -133,7 +135,7 @@ func NewExec(ld *Loader, specs *Specs, fnKey string) *Exec {
 		strs: map[string]Term{}, strNames: map[string]string{}, floats: map[string]Term{}, floatNames: map[string]string{},
 		cellRefs: map[cellKey]Term{}, boxes: map[string]boxed{}, stubsUsed: map[string]bool{}, inlined: map[string]bool{},
 		calleesUsed: map[string]bool{}, declSpec: map[string]bool{}, paramVals: map[string]Value{},
-		ranges: map[*ssa.Range]*rangeState{}, selectIdx: map[*ssa.Select]Term{}, loopWritesHeap: map[string]map[string]bool{}}
+		lemmasUsed: map[string]bool{}, ranges: map[*ssa.Range]*rangeState{}, selectIdx: map[*ssa.Select]Term{}, loopWritesHeap: map[string]map[string]bool{}}
 }
 
 func (ex *Exec) fsort() Sort {
@@ -325,6 +327,21 @@ func (ex *Exec) load(p PtrV) Value { return ex.loadIn(ex.st, p) }
 func (ex *Exec) loadIn(st *State, p PtrV) Value {
 	t := typeAtPath(p.Root, p.Path)
 	switch p.Kind {
+	case pOpaque:
+		// value of a field of an opaque struct: an uninterpreted function of the struct's abstract state
+		state := ex.scalarOf(ex.loadIn(st, *p.Base))
+		var ts []Term
+		for i, l := range leavesOf(t) {
+			ls := leafSortFix(ex, l)
+			name := fmt.Sprintf("getfield.%s.%d", p.Fld, i)
+			ex.vc.DeclareFun(name, []Sort{SInt}, ls)
+			ts = append(ts, app(ls, name, state))
+		}
+		v := ex.unflatten(t, &ts)
+		if st == ex.st {
+			ex.assumeLoaded(v, t, st.pc)
+		}
+		return v
 	case pLocal:
 		v, ok := st.cells[p.Cell]
 		if !ok {
@@ -416,6 +433,10 @@ func setPath(v Value, path []int, nv Value) Value {
 func (ex *Exec) store(p PtrV, v Value) {
 	t := typeAtPath(p.Root, p.Path)
 	switch p.Kind {
+	case pOpaque:
+		// writing a field of an opaque struct gives the struct a new, unknown abstract state
+		ex.store(*p.Base, Sc{ex.vc.Fresh("opaque."+p.Fld, SInt)})
+		return
 	case pLocal:
 		old, ok := ex.st.cells[p.Cell]
 		if !ok {
